@@ -41,7 +41,8 @@ def run_one(job):
         viol = [l for l in out.splitlines() if l.startswith("VIOLATION")]
         what = [l.strip() for l in out.splitlines() if l.strip().startswith("what:")]
         if rc == 1 and viol:
-            return name, pid, "CAUGHT", (what[0][:200] if what else ""), time.time() - t0
+            keys = sorted({w[w.rindex("[") + 1:-1] for w in what if w.rstrip().endswith("]") and "[" in w})
+            return name, pid, "CAUGHT", (what[0][:200] if what else "") + " ||KEYS|| " + ",".join(keys[:6]), time.time() - t0
         if rc == 0:
             drift = [l for l in out.splitlines() if l.startswith("CONFORMANCE-DRIFT")]
             return name, pid, "MISSED", ("drift only: " + drift[0][:160]) if drift else "check passed", time.time() - t0
@@ -76,8 +77,18 @@ def main(argv):
     bad = 0
     with concurrent.futures.ThreadPoolExecutor(max_workers=args.jobs) as ex:
         for name, pid, verdict, info, dt in ex.map(run_one, jobs):
+            keys = []
+            if "||KEYS||" in info:
+                info, k = info.split(" ||KEYS|| ")
+                keys = [x for x in k.split(",") if x]
             print("%-52s %-4s %-14s %5.0fs  %s" % (name, pid, verdict, dt, info))
             sys.stdout.flush()
+            if name.startswith("seeded/"):
+                mp = os.path.join(VERIF, name, "meta.json")
+                meta = json.load(open(mp))
+                meta["recheck"] = {"rc": 1 if verdict == "CAUGHT" else 0, "verdict": verdict, "keys": keys, "wall_s": round(dt, 1),
+                                   "verif_commit": subprocess.run(["git", "-C", VERIF, "rev-parse", "--short", "HEAD"], stdout=subprocess.PIPE, text=True).stdout.strip()}
+                json.dump(meta, open(mp, "w"), indent=1)
             if verdict != "CAUGHT":
                 bad += 1
     print("selftest: %d of %d changes detected" % (len(jobs) - bad, len(jobs)))
